@@ -73,6 +73,8 @@ pub struct GSpec {
     pub inputs: Option<Vec<String>>,
     /// generate accessor observations (C17) for rules named c*/s*/r*
     pub acc: bool,
+    /// build this grammar in the subject's `grammar-extras` configuration
+    pub extras: bool,
     /// do not derive the pest parser (C20 variants share the base grammar's pest parser results via the base entry)
     pub no_pest: bool,
 }
